@@ -13,9 +13,11 @@ import (
 	"encoding/hex"
 	"fmt"
 	"net/http"
+	"reservoir/cache"
 	"sort"
 	"strings"
 	"sync"
+	"time"
 
 	"verifharness/core"
 	"verifharness/rig"
@@ -45,6 +47,9 @@ var c08hopByHop = []string{"Connection", "Proxy-Connection", "Keep-Alive", "Prox
 // headers the proxy (or its HTTP client / server) owns on each side
 var c08proxyOwnedResp = map[string]bool{"Via": true, "X-Cache": true, "Cache-Status": true, "Age": true, "Accept-Ranges": true,
 	"Content-Length": true, "Transfer-Encoding": true, "Connection": true, "Date": true}
+
+// fields to which a proxy appends its own value (RFC 9110 Via, RFC 9211 Cache-Status; X-Cache by convention)
+var c08proxyAppends = map[string]bool{"Via": true, "Cache-Status": true, "X-Cache": true}
 var c08clientAdds = map[string]bool{"User-Agent": true, "Accept-Encoding": true, "Content-Length": true, "Connection": true}
 
 type c08world struct {
@@ -289,6 +294,11 @@ func c08gen(b core.Batch, i int, mode string, w *c08world) (c08case, rig.Req) {
 	if pick(15) {
 		s.Header = append(s.Header, [2]string{"Proxy-Authenticate", "Basic realm=x"})
 	}
+	if pick(30) {
+		// the origin sits behind another intermediary that has already written these fields: its values are
+		// end-to-end and must still be there, in order, before whatever this proxy appends
+		s.Header = append(s.Header, [2]string{"Via", "1.1 upstream-cdn"}, [2]string{"Via", "1.0 inner-gw (verif)"}, [2]string{"Cache-Status", "upstream-cdn; hit; ttl=17"}, [2]string{"X-Cache", "HIT from upstream-cdn"})
+	}
 	if pick(40) {
 		s.Header = append(s.Header, [2]string{"ETag", fmt.Sprintf("\"e-%d\"", i)}, [2]string{"Last-Modified", rig.LastMod(i)})
 	}
@@ -365,6 +375,7 @@ func c08Run(b core.Batch, r *core.Recorder) {
 		}
 	}
 	c08range416(b, r, mode)
+	c08revalFallback(b, r, mode)
 }
 
 // c08range416: the origin answers a Range request with 416 and the same request without Range with
@@ -427,6 +438,113 @@ func c08range416(b core.Batch, r *core.Recorder, mode rig.Mode) {
 			}
 		}
 		p.Close()
+	}
+}
+
+// c08revalFallback: an entry is stored and made stale; the proxy's revalidation (its own conditional request) gets an
+// answer that cannot be stored (503 / 404 / 200 no-store). Whatever the proxy does next, any further request it sends
+// for this exchange stands for the CLIENT's request and must not carry validators the client never sent, and the
+// client, which asked unconditionally, must receive the origin's real answer, never a 304.
+func c08revalFallback(b core.Batch, r *core.Recorder, mode rig.Mode) {
+	type st struct {
+		stale bool
+		kind  string
+		reqs  []http.Header
+	}
+	var mu sync.Mutex
+	states := map[string]*st{}
+	o := rig.StartOrigin(func(w http.ResponseWriter, q *http.Request, rec *rig.OriginReq) {
+		id := strings.Trim(q.URL.Path, "/")
+		mu.Lock()
+		s := states[id]
+		var nth int
+		if s != nil && s.stale {
+			s.reqs = append(s.reqs, q.Header.Clone())
+			nth = len(s.reqs)
+		}
+		mu.Unlock()
+		if s == nil {
+			w.WriteHeader(599)
+			return
+		}
+		if !s.stale {
+			w.Header().Set("ETag", "\"fallback-v1\"")
+			w.Header().Set("Last-Modified", rig.LastMod(1))
+			rig.ServeBody(w, 31, 1, 500, map[string]string{"Cache-Control": "max-age=300"})
+			return
+		}
+		cond := q.Header.Get("If-None-Match") != "" || q.Header.Get("If-Modified-Since") != ""
+		if nth > 1 && cond {
+			w.Header().Set("ETag", "\"fallback-v1\"")
+			w.WriteHeader(304) // what a real origin answers to a matching validator
+			return
+		}
+		switch s.kind {
+		case "503":
+			w.Header().Set("X-Origin-Answer", "503")
+			w.WriteHeader(503)
+			w.Write([]byte("origin is busy"))
+		case "404":
+			w.Header().Set("X-Origin-Answer", "404")
+			w.WriteHeader(404)
+			w.Write([]byte("gone for now"))
+		default:
+			w.Header().Set("X-Origin-Answer", "200")
+			rig.ServeBody(w, 31, 2, 500, map[string]string{"Cache-Control": "no-store"})
+		}
+	})
+	defer o.Close()
+	p := rig.StartProxy(rig.ProxyOpts{Backend: b.Str("backend", "memory")})
+	defer p.Close()
+	for i, kind := range []string{"503", "404", "nostore200", "503", "nostore200", "404"} {
+		id := fmt.Sprintf("fallback-%s-%s-%d", mode, kind, i)
+		if !r.Case(id, kind) {
+			continue
+		}
+		r.Eval(1)
+		mu.Lock()
+		states[id] = &st{kind: kind}
+		mu.Unlock()
+		clientHdr := [][2]string{{"X-Client-Field", "end-to-end"}, {"Accept", "text/x-verif"}}
+		if pre := rig.Do(p, mode, o.Addr, rig.Req{Target: "/" + id, Header: clientHdr}); pre.Err != nil || pre.Status != 200 {
+			r.NotJudged("fallback-preparation-failed")
+			continue
+		}
+		hr, _ := http.NewRequest("GET", "http://"+o.Addr+"/"+id, nil)
+		if err := p.P.VerifCacheSetExpires(cache.MakeFromRequest(hr), time.Now().Add(-time.Hour)); err != nil {
+			r.NotJudged("fallback-preparation-failed")
+			continue
+		}
+		mu.Lock()
+		states[id].stale = true
+		mu.Unlock()
+		resp := rig.Do(p, mode, o.Addr, rig.Req{Target: "/" + id, Header: clientHdr})
+		mu.Lock()
+		reqs := states[id].reqs
+		mu.Unlock()
+		r.Count("revalidation_fallback_cases", 1)
+		r.Nontrivial("reval-fallback", kind, string(mode), i)
+		cs := map[string]any{"id": id, "origin_answers_the_revalidation_with": kind}
+		wit := map[string]any{"origin_received": reqs, "status": resp.Status, "header": resp.Header, "body_len": len(resp.Body), "err": fmt.Sprint(resp.Err)}
+		for k, h := range reqs {
+			if h.Get("X-Client-Field") != "end-to-end" {
+				r.Violation("C08", "C08:req:header:single:X-Client-Field:revalidation", fmt.Sprintf("request %d of the exchange reached the origin without the client's end-to-end header", k+1), cs, wit)
+			}
+			if k > 0 && (h.Get("If-None-Match") != "" || h.Get("If-Modified-Since") != "") {
+				r.Violation("C08", "C08:req:header-added:validators-in-the-relayed-request", fmt.Sprintf("after the revalidation was answered %s, request %d for the client's unconditional GET carried If-None-Match=%q If-Modified-Since=%q", kind, k+1, h.Get("If-None-Match"), h.Get("If-Modified-Since")), cs, wit)
+			}
+		}
+		want := map[string]int{"503": 503, "404": 404, "nostore200": 200}[kind]
+		switch {
+		case resp.Err != nil:
+			r.Violation("C08", "C08:resp:not-delivered:revalidation-fallback", fmt.Sprintf("no well-formed response: %v", resp.Err), cs, wit)
+		case resp.Status == 304:
+			r.Violation("C08", "C08:resp:status:unasked-304", "the client sent an unconditional GET and received 304 Not Modified", cs, wit)
+		case resp.Status != want || resp.Get("X-Origin-Answer") != fmt.Sprint(want):
+			r.Violation("C08", "C08:resp:status:revalidation-fallback", fmt.Sprintf("the origin answered %d, the client received %d (X-Origin-Answer=%q)", want, resp.Status, resp.Get("X-Origin-Answer")), cs, wit)
+		case want == 200 && rig.CheckFull(resp.Body, 500).V != 2:
+			r.Violation("C08", "C08:resp:body:revalidation-fallback", "the origin answered 200 no-store with version 2, the client received "+rig.CheckFull(resp.Body, 500).String(), cs, wit)
+		}
 	}
 }
 
@@ -526,6 +644,21 @@ func c08judge(r *core.Recorder, c c08case, q rig.Req, s c08script, resp *rig.Res
 			}
 			continue
 		}
+		if c08proxyAppends[name] {
+			// the proxy may append values of its own; the origin's must all be there, in order, ahead of them
+			ok := len(recv) >= len(sent)
+			for k := 0; ok && k < len(sent); k++ {
+				ok = recv[k] == sent[k]
+			}
+			if !ok {
+				joined := strings.Join(recv, ", ") // or folded into one line, still in order and first
+				ok = strings.HasPrefix(joined, strings.Join(sent, ", "))
+			}
+			if !ok {
+				viol("resp:header-values-replaced:"+name+fmt.Sprintf(":%s", map[bool]string{true: "from-store", false: "first"}[round > 0]), fmt.Sprintf("response header %s: the origin (behind another intermediary) sent %q, the client received %q", name, sent, recv), wit)
+			}
+			continue
+		}
 		if c08proxyOwnedResp[name] {
 			continue
 		}
@@ -570,10 +703,10 @@ func init() {
 		ID:    "C08",
 		Level: "exploration",
 		Rule: "seeded generation of exchanges: method in {GET,HEAD,POST,PUT,PATCH,DELETE,OPTIONS} x 15 request-target classes (pct-encoded slash/pipe/space, semicolon, empty query, dot-segments, double slash, trailing slash, ...) x request header options (multi-valued, odd casing, Cookie, Authorization, Connection-nominated, Proxy-*, TE) x request bodies (none/sized/chunked/70k-1MiB) " +
-			"x origin script: status from 25 codes incl. 3xx with Location, multi-valued Set-Cookie/Link/Vary/Warning, Connection-nominated and hop-by-hop headers, validators, cache directives, bodies (none/sized/chunked/200k); 60% of storable GETs are requested a second time so that the answer from the store is checked too; plain and tunnel transport, both backends. " +
+			"x origin script: status from 25 codes incl. 3xx with Location, multi-valued Set-Cookie/Link/Vary/Warning, Connection-nominated and hop-by-hop headers, validators, cache directives, bodies (none/sized/chunked/200k); 60% of storable GETs are requested a second time so that the answer from the store is checked too; plain and tunnel transport, both backends; origins behind another intermediary (their Via / Cache-Status / X-Cache values must stay in front of the values this proxy appends); a stale entry whose revalidation is answered 503 / 404 / 200 no-store (any further request of that exchange must be a faithful copy of the unconditional client request, and the client must get the real answer, never a 304). " +
 			"Every copy of the request the origin logs and the response the client parses are compared field by field. Non-trivial/distinct = distinct (transport, method, target class, status, request/response header-name sets, body shapes, round).",
 		Assumptions: []string{"headers the proxy's HTTP client adds when absent (User-Agent, Accept-Encoding) and framing (Content-Length/Transfer-Encoding) are tolerated on the request side",
-			"Via, X-Cache, Cache-Status, Age, Accept-Ranges, Date and framing headers are proxy-owned on the response side", "conditional request headers and Range are not generated here (C06/C07 cover them)"},
+			"Age, Accept-Ranges, Date and framing headers are proxy-owned on the response side; to Via, X-Cache and Cache-Status the proxy may append, the values an upstream intermediary wrote must stay in front", "conditional request headers and Range are not generated here (C06/C07 cover them)"},
 		Plan:     c08Plan,
 		Run:      c08Run,
 		Parallel: 4,
